@@ -361,7 +361,7 @@ def judge(case, res):
             ln = getattr(exc, 'line', None)
             where = (os.path.realpath(ln.file), ln.number) if ln is not None and isinstance(getattr(ln, 'file', None), str) else None
             if as_text:
-                where = (ln.file, ln.number) if ln is not None else None
+                where = (getattr(ln, 'file', None), getattr(ln, 'number', None)) if ln is not None else None
                 sites = [('<string>', n) for _, n in ok_sites]
             if case['cls'] == 'duplabel' and where not in sites:
                 # the assembler does not refuse duplicate labels as such; a refusal elsewhere is a side effect of the label's new
